@@ -12,7 +12,7 @@ import ast
 
 from ..index import AnchorMissing, Unrecognised
 from ..cfg import CFG
-from ..astutil import u, body_walk, local_env, func_calls, walk_local, single_return_expr, inline_locals
+from ..astutil import linear_body, u, body_walk, local_env, func_calls, walk_local, single_return_expr, inline_locals
 from ..pend import edge_facts
 from .. import sym
 
@@ -117,7 +117,7 @@ def r3_overlap_family(ctx):
     a, b = f.params
     env = {}
     seq = []
-    for n in f.node.body:
+    for n in linear_body(f.node):
         if isinstance(n, ast.Assign):
             seq.append(n)
     txt = [u(n) for n in seq]
@@ -147,7 +147,7 @@ def r3_overlap_family(ctx):
     env = local_env(gm.node)
     ok = sym.same(env.get("merged"), f"merge_intervals({iv}[np.argsort({iv}.start)])") and sym.same(env.get("m"), "merged.start != merged.stop")
     ctx.ob(gm.where, "mask: intervals are sorted by start, merged, and empty intervals dropped", ok, "", key="C08-R3|mask-merge")
-    rets = [n for n in gm.node.body if isinstance(n, ast.Return)]
+    rets = [n for n in linear_body(gm.node) if isinstance(n, ast.Return)]
     ok = bool(rets) and sym.same(rets[-1].value, f"GenomicRunLengthArray.from_intervals(merged.start[m], merged.stop[m], size={size}, default_value=False)")
     ctx.ob(gm.where, "mask = run-length array over [0, size) that is True exactly inside the merged intervals", ok, u(rets[-1].value) if rets else "", key="C08-R3|mask-build")
     asserts = [n for n in body_walk(gm.node) if isinstance(n, ast.Assert)]
@@ -156,7 +156,7 @@ def r3_overlap_family(ctx):
     gp = ix.func(IV, "get_pileup")
     iv, size = gp.params
     env = local_env(gp.node)
-    rets = [n for n in gp.node.body if isinstance(n, ast.Return)]
+    rets = [n for n in linear_body(gp.node) if isinstance(n, ast.Return)]
     ok = sym.same(env.get("rla"), f"RunLength2dArray.from_intervals({iv}.start, {iv}.stop, {size})") and bool(rets) and sym.same(rets[-1].value, "GenomicRunLengthArray.from_rle(rla.sum(axis=0))")
     ctx.ob(gp.where, "pileup = sum over intervals of their indicator rows over [0, size)", ok, "", key="C08-R3|pileup")
     ui = ix.func(IV, "unique_intersect")
@@ -191,10 +191,10 @@ def r4_clamps(ctx):
     iv, length, size = f.params
     # final start / stop expressions with every local inlined, statement order respected
     env = {}
-    for n in f.node.body:
+    for n in linear_body(f.node):
         if isinstance(n, ast.Assign) and isinstance(n.targets[0], ast.Name):
             env[n.targets[0].id] = inline_locals(n.value, env)
-    e = [n for n in f.node.body if isinstance(n, ast.Return)]
+    e = [n for n in linear_body(f.node) if isinstance(n, ast.Return)]
     ctx.need(len(e) == 1 and isinstance(e[0].value, ast.Call), "extend_to_size: return replace(...) not found")
     kws = {k.arg: inline_locals(k.value, env) for k in e[0].value.keywords}
     ctx.need("start" in kws and "stop" in kws, "extend_to_size does not replace start and stop")
@@ -250,7 +250,7 @@ def r5_similarity(ctx):
         unpack = [n for n in body_walk(f.node) if isinstance(n, ast.Assign) and isinstance(n.targets[0], ast.Tuple) and u(n.targets[0]).replace(" ", "") == "((a,b),(c,d))"]
         ok_u = len(unpack) == 1 and sym.canon(unpack[0].value) == "get_contingency_table(ms.a, ms.b, ms.lengths)"
         ctx.ob(f.where, f"{name}: cells are unpacked as ((a, b), (c, d)) from the contingency table of the two synchronised streams", ok_u, "", key=f"C08-R5|{name}-unpack")
-        e = [n for n in f.node.body if isinstance(n, ast.Return)]
+        e = [n for n in linear_body(f.node) if isinstance(n, ast.Return)]
         ctx.need(len(e) == 1, f"{name}: single return expected")
         env2 = {k: v for k, v in env.items() if k == "N"}
         n_, d_ = _ratio(e[0].value, env2)
@@ -287,7 +287,7 @@ def r6_pairwise_matrix_and_inputs(ctx):
     the same intervals would see shifted coordinates): ownership analysis shared with C20, restricted to the interval modules."""
     ix = ctx.index
     f = ix.func("bionumpy.genomic_data.geometry", "Geometry.jaccard_all_vs_all")
-    outer = [n for n in f.node.body if isinstance(n, ast.For)]
+    outer = [n for n in linear_body(f.node) if isinstance(n, ast.For)]
     ctx.need(len(outer) == 1 and isinstance(outer[0].target, ast.Tuple), "jaccard_all_vs_all: outer enumerate loop not found")
     eo = _enum(outer[0].iter)
     inner = [n for n in outer[0].body if isinstance(n, ast.For)]
@@ -314,7 +314,7 @@ def r6_pairwise_matrix_and_inputs(ctx):
     want = {(str(pos_a), str(pos_b)), (str(pos_b), str(pos_a))}
     ctx.ob(f.where, f"the pair (element {pos_a}, element {pos_b}) of the list is stored at [{pos_a}, {pos_b}] and its mirror", cells == want, f"stored at {sorted(cells)}",
            key="C08-R6|pair-cells")
-    ok_sz = any(isinstance(n, ast.Assign) and sym.canon(n.value) == sym.canon(sym.parse_expr(f"np.zeros((len({f.params[1]}), len({f.params[1]})))")) for n in f.node.body)
+    ok_sz = any(isinstance(n, ast.Assign) and sym.canon(n.value) == sym.canon(sym.parse_expr(f"np.zeros((len({f.params[1]}), len({f.params[1]})))")) for n in linear_body(f.node))
     ctx.ob(f.where, "the matrix has one row and one column per interval set", ok_sz, "", key="C08-R6|matrix-shape")
     # (b)
     from .c20 import _analysis, ALLOWED_PARAM_MUTATORS
